@@ -78,15 +78,17 @@ CHECKS = {
     "C03": dict(
         category="model_checking",
         technique="TLA+ registration machine (PyBind.tla: Expected, DefSubmodule/Register) run by TLC on scanned events "
-                  "of the generated translation unit",
+                  "of the generated translation unit; (executed) dir() of every module / class object of built modules compared "
+                  "with the names PyCall!ExposeNs derives",
         text="For TLC-derived modules and fixtures x option sets (top namespace at every depth incl. non-matching, "
              "ignore lists, serialization) the generated C++ is scanned into registration events; TLC computes the "
              "expected registrations from the instantiated tree and runs the machine: every event must be an enabled "
              "step (submodule created once and before use, binding pending, placed in an existing module) and nothing "
              "may remain pending.",
         note="Order of registrations is free. Trusted: the scanner (harness/proj_py.py, self-validated on the goldens). "
-             "dir() of a compiled module is compared only in the C04/C09 executed tiers.",
-        design="6/C03"),
+             "Executed half ('call' profile, top namespace [''], no ignore list): the public attributes of each module and "
+             "class object must be exactly the declared names (inherited ones included).",
+        design="6/C03, 12.6"),
     "C04": dict(
         category="model_checking",
         technique="(static) same machine as C03: forwarding fields of each binding record (lambda parameters, callee, call "
